@@ -171,7 +171,8 @@ def run_true_cli(spec, hashseed='0', timeout=120):
                 env[k] = v
         t0 = time.monotonic()
         try:
-            r = subprocess.run([PY, '-m', 'bespokeasm'] + list(spec['argv']), cwd=os.path.join(d, spec.get('cwd', '.')),
+            r = subprocess.run([PY, '-m', 'bespokeasm'] + [a.replace('{SCRATCH}', d) for a in spec['argv']],
+                               cwd=os.path.join(d, spec.get('cwd', '.')),
                                env=env, stdin=subprocess.DEVNULL, stdout=subprocess.PIPE, stderr=subprocess.PIPE,
                                timeout=timeout)
             out['exit'] = r.returncode
@@ -203,6 +204,7 @@ def run_true_cli(spec, hashseed='0', timeout=120):
                     continue
                 files[rel] = data.hex()
         out['files'] = files
+        out['scratch'] = os.path.realpath(d)
         out['unchanged'] = unchanged
         out['probes'] = {}
     finally:
@@ -217,4 +219,19 @@ def same_observables(a, b):
         return bool(a.get('timed_out')) == bool(b.get('timed_out'))
     if ea != eb:
         return False
-    return a.get('files') == b.get('files')
+    return _normalised(a) == _normalised(b)
+
+
+def _normalised(o):
+    """output files with the run's own scratch directory path replaced (listings print absolute include paths)"""
+    sc = (o.get('scratch') or '').encode()
+    res = {}
+    for k, v in (o.get('files') or {}).items():
+        if isinstance(v, str) and sc:
+            try:
+                res[k] = bytes.fromhex(v).replace(sc, b'<SCRATCH>')
+                continue
+            except ValueError:
+                pass
+        res[k] = v
+    return res
